@@ -624,6 +624,14 @@ func c15Property(t *rapid.T, st *Stats) {
 			if lu, err := url.Parse(r.hdr.Get("Location")); err == nil {
 				s.sessions = append(s.sessions, path.Base(lu.Path))
 				s.sessState[path.Base(lu.Path)] = lu.Query().Get("state")
+				// RepoUploadMax is 3: one session more and the repository cancels its least recently used ones - which
+				// of the older sessions are still there is not this oracle's business (C08, C20)
+				if len(s.sessions) > 3 {
+					for _, id := range s.sessions[:len(s.sessions)-1] {
+						s.uncertain[id] = true
+					}
+					classes["sessions-beyond-upload-max"] = true
+				}
 			}
 		}
 		if (r.code == 201 || r.code == 202) && (q.method == "PUT" || q.method == "POST" || q.method == "DELETE" || q.method == "PATCH") {
